@@ -6,7 +6,7 @@ from common import Rng, F, close
 import fitcase
 
 PROP = 'C02'
-MODEL_OPS = 'Grid.ndist, Grid.gridlog_m, FitModel.fit3_pkg (interp_clamp_m, scaled_flux_m, av_at_distance, chi2_m, argmin_x), FitMask.fit3_pkg_masked; beyond the property: RadiusM.radius_sigma_m, RadiusM.radius_cumul_m, ResolvedM.resolved_pkg'
+MODEL_OPS = 'GridGuard.ndist_g (= Grid.ndist or one less), Grid.gridlog_m, FitModel.fit3_pkg (interp_clamp_m, scaled_flux_m, av_at_distance, chi2_m, argmin_x), FitMask.fit3_pkg_masked; beyond the property: RadiusM.radius_sigma_m, RadiusM.radius_cumul_m, ResolvedM.resolved_pkg'
 RULE = ('aperture-dependent v1 packages (convolved files with 2-8 apertures) fitted through Fitter: 2-6 bands with >=1 fitted band, 1-8 models, growth curves '
         'non-decreasing or arbitrary, distance ranges incl. dmin==dmax and ranges pushing theta*d beyond the largest aperture, steps 0.01-0.5; '
         'a malformed stream with theta*dmin below the smallest aperture. non-trivial = more than one trial distance and a finite chi2; distinct = distinct inputs.')
@@ -151,7 +151,7 @@ def model_requests(case, im=None):
     L = float(k) if k is not None else float(np.log10(d1 / d0))      # a whole number of decades is known exactly
     ds, logds = fitcase.grid_of(case)
     reqs = [fitcase.model_request(case),
-            ('ndist', [F(L), F(case['logd_step'])]),
+            ('ndist_g', [F(1e-10), F(L), F(case['logd_step'])]),      # GridGuard.ndist_g: the count with the code's guard against rounding (F64)
             ('gridlog', [F(float(np.log10(d0))), F(float(np.log10(d1))), max(len(ds), 2)])]
     # remove_resolved=True: FitMask.fit3_pkg_masked with the implementation's own `extended` array as the mask
     if isinstance(im, dict) and im.get('rr_ext') and isinstance(im.get('rr'), dict) and im['rr'].get('n_distances') == len(ds):
